@@ -119,6 +119,10 @@ def float_dag_ops(t, acc=None, seen=None):
     return acc
 
 
+def unify_simple(ty, path):
+    return ty.get('k') == 'adt' and ty.get('path') == path
+
+
 def poly_types(facts):
     """fixed-degree polynomial ADTs: tuple structs in module `poly` wrapping f64 or [f64; N]
     -> list of (path, degree)"""
@@ -130,6 +134,9 @@ def poly_types(facts):
         if len(fields) != 1 or fields[0]['name'] != '0':
             continue
         t = fields[0]['ty']
+        # only the types that are evaluated as polynomials (a helper newtype around an f64 is not one)
+        if not any(unify_simple(im['self_ty'], p) for im in facts.impls_by_trait.get('poly::Evaluate', [])):
+            continue
         if t['k'] == 'float':
             out.append((p, 0))
         elif t['k'] == 'array' and t['ty']['k'] == 'float' and t['len'] is not None:
@@ -220,4 +227,18 @@ def helper_by_role(facts, root, args, ret, prefer=None):
     for h in hits:
         if prefer and h['path'] == prefer:
             return h
+    if not hits:
+        # reached through a trait of this crate (static dispatch on a strategy type): the call graph has no direct edge;
+        # a unique function or trait-impl method of the crate with that signature plays the role
+        cand = []
+        for h in facts.raw['fns']:
+            if h['kind'] in ('Fn', 'AssocFn') and h is not root and not h.get('from_derive') and h.get('body') and facts.fn_by_idx.get(h['def']['idx']) is h:
+                try:
+                    a, r = sig_of(h)
+                except Exception:
+                    continue
+                if len(a) == len(args) and all(ty_is(x, w) for x, w in zip(a, args)) and ty_is(r, ret):
+                    cand.append(h)
+        if len(cand) == 1:
+            return cand[0]
     return None
